@@ -810,6 +810,85 @@ def c03_15(ctx):
             ctx.undecided("ref:%s" % q, where, "%s is organised differently from the reference transcription (%s); no verdict" % (fi.qualname, "; ".join("%s %s" % (d[0], (d[2] or d[3] or "")[:70]) for d in details[:2])))
 
 
+# ------------------------------------------------------------------ C03.16
+def c03_16(ctx):
+    """three consensus details decided on paths and effects (each a repaired defect, see known_findings.json)"""
+    # (a) CLTV / CSV are NOPs on the stack: the operand they read stays there as it was encoded
+    for name in ("do_OP_CHECKLOCKTIMEVERIFY", "do_OP_CHECKSEQUENCEVERIFY"):
+        f = ctx.func(MISCOPS, name)
+        w = sym.walk(ctx, f)
+        vm = f.params()[0]
+        calls = [e for e in w.effects if e.kind == "call"]
+        reenc = [e for e in calls if norm(e.raw.func) in ("%s.push_int" % vm, "%s.push_nonnegative" % vm)]
+        ctx.check(not reenc, "locktime-operand-kept:%s" % name, ctx.where(f, reenc[0].node if reenc else None),
+                  "%s pushes a re-encoded number: a non-minimally encoded operand (0x0100) comes back as 0x01, consensus leaves the stack untouched" % name)
+        pops = [e for e in calls if norm(e.raw.func) in ("%s.pop_int" % vm, "%s.pop" % vm, "%s.pop_nonnegative" % vm)]
+        backs = [e for e in calls if norm(e.raw.func) in ("%s.append" % vm, "%s.stack.append" % vm) and e.raw.args and norm(e.call.args[0]).replace(" ", "") in ("%s.stack[-1]" % vm,)]
+        if pops:
+            r_pop = gi.f_or(*[e.reach for e in pops])
+            r_back = gi.f_or(*[e.reach for e in backs]) if backs else False
+            ctx.check(r_back is not False and sym.entails(r_pop, r_back), "locktime-operand-restored:%s" % name, ctx.where(f),
+                      "%s pops its operand without putting the element it read (vm.stack[-1]) back on every such path" % name)
+        else:
+            ctx.ok("locktime-operand-peeked:%s" % name)
+    # (b) every public key taken for comparison passes the encoding flags, whatever the signature looks like
+    cs = ctx.func(CHECKSIG, "checksigs")
+    keys = cs.params()[2]
+    w = sym.walk(ctx, cs)
+    rebinds = [n for n in ast.walk(cs.node) if isinstance(n, ast.Name) and n.id == keys and isinstance(n.ctx, (ast.Store, ast.Del))]
+    clears = [e for e in w.effects if e.kind == "call" and norm(e.raw.func) in ("%s.clear" % keys,)]
+    ctx.check(not rebinds and not clears, "keys-consumed-by-pop-only", ctx.where(cs, (rebinds or [None])[0]),
+              "checksigs rebinds / clears `%s`: keys leave the list without being looked at, so an empty or undecodable signature skips the public key encoding check (STRICTENC, WITNESS_PUBKEYTYPE)" % keys)
+    pops = [e for e in w.effects if e.kind == "call" and norm(e.raw.func) == "%s.pop" % keys]
+    if not pops:
+        raise Undecided("checksigs: keys are not taken with %s.pop()" % keys)
+    checked = [e for e in w.effects if e.kind == "call" and norm(e.raw.func) in ("checksig", "check_public_key_flags", "check_public_key_encoding")]
+    r_pop = gi.f_or(*[e.reach for e in pops])
+    r_chk = gi.f_or(*[e.reach for e in checked]) if checked else False
+    ctx.check(r_chk is not False and sym.entails(r_pop, r_chk), "every-popped-key-checked", ctx.where(cs),
+              "checksigs takes a public key on paths where neither checksig nor the encoding check sees it")
+    cg = ctx.func(CHECKSIG, "checksig")
+    wg = sym.walk(ctx, cg)
+    fl = [e for e in wg.effects if e.kind == "call" and norm(e.raw.func) in ("check_public_key_flags",)]
+    if fl:
+        ctx.check(any(e.reach is True for e in fl), "checksig-key-flags-first", ctx.where(cg), "checksig applies the public key encoding flags only on some paths")
+        kf = ctx.func(CHECKSIG, "check_public_key_flags")
+        wk = sym.walk(ctx, kf)
+        enc = [e for e in wk.effects if e.kind == "call" and norm(e.raw.func) == "check_public_key_encoding"]
+        strict = kf.params()[2]
+        ctx.check(bool(enc) and sym._equiv(gi.f_or(*[e.reach for e in enc]), ("op", "truthy(%s)" % strict)), "strictenc-key-encoding", ctx.where(kf), "check_public_key_flags does not check the key encoding exactly under STRICTENC")
+    else:
+        enc = [e for e in wg.effects if e.kind == "call" and norm(e.raw.func) == "check_public_key_encoding"]
+        ctx.check(bool(enc) and not any("sig_pair" in str(o) for e in enc for o in (gi.f_opaques(e.reach) if e.reach not in (True, False) else [])), "checksig-key-flags-first", ctx.where(cg),
+                  "checksig does not check the public key encoding independently of the signature")
+    # (c) a native witness program is spent with an empty scriptSig: the test is on the script, not on the stack it leaves
+    wp = ctx.func(SEG, "SegwitChecker.witness_program_tuple")
+    ww = sym.walk(ctx, wp)
+    p2sh = wp.params()[5]
+    raises = [e for e in ww.exits if e.kind == "raise"]
+    on_script = [e for e in raises if any("solution_script" in str(o) for o in (gi.f_opaques(e.cond) if e.cond not in (True, False) else []))]
+    ok = False
+    for e in on_script:
+        ops = [o for o in gi.f_opaques(e.cond) if isinstance(o, str)]
+        stack_tests = [o for o in ops if "solution_stack" in o and "witness_solution_stack" not in o]
+        native = sym.entails(e.cond, gi.f_not(("op", "truthy(%s)" % p2sh)))
+        if native and not any(sym.entails(e.cond, ("op", o)) for o in stack_tests):
+            ok = True       # raised for a native program because of the script itself, whatever it leaves on the stack
+    ctx.check(ok, "native-witness-empty-scriptsig", ctx.where(wp),
+              "witness_program_tuple refuses a native witness spend only when the scriptSig LEAVES something on the stack; `OP_1 OP_DROP` as scriptSig is accepted, consensus: WITNESS_MALLEATED unless the scriptSig is empty")
+    # (d) P2SH-wrapped: the scriptSig is exactly the canonical push of the redeem script (BIP141), not just "leaves nothing more"
+    wrapped = [e for e in raises if e.cond is not False and sym.entails(e.cond, ("op", "truthy(%s)" % p2sh))
+               and any("solution_script" in o and "compile_push_data_list" in o for o in (gi.f_opaques(e.cond) if e.cond not in (True, False) else []) if isinstance(o, str))]
+    ok_w = False
+    pz = wp.params()[2]
+    for e in wrapped:
+        for o in gi.f_opaques(e.cond):
+            if isinstance(o, str) and "solution_script" in o and "compile_push_data_list([%s])" % pz in o and " == " in o and sym.entails(e.cond, gi.f_not(("op", o))):
+                ok_w = True
+    ctx.check(ok_w, "p2sh-witness-canonical-push", ctx.where(wp),
+              "witness_program_tuple accepts a P2SH-wrapped witness spend whose scriptSig is not the canonical push of the redeem script (e.g. OP_PUSHDATA1 <redeem>): consensus fails with WITNESS_MALLEATED_P2SH")
+
+
 OBLIGATIONS = [
     Ob("C03.1", "all 256 opcode values: dispatch-table binding vs consensus class, outside_conditional bit, arithmetic lambdas", guarded(c03_1), floor=256, engines="REG,CE",
        breaks_if="any script containing that opcode (also inside unexecuted branches)", exhaustive=True),
@@ -825,6 +904,8 @@ OBLIGATIONS = [
        breaks_if="any script using the opcode (ROT / 2ROT / TUCK permutations, WITHIN bounds)"),
     Ob("C03.13", "sighash cache of CHECKSIG/CHECKMULTISIG is call-local (shared with C06.2)", guarded(c03_13), floor=7, engines="EF,DF",
        breaks_if="two CHECKSIGs sharing a hash type where the second signature appears in the script (FindAndDelete)"),
+    Ob("C03.16", "CLTV/CSV keep their operand as encoded; every key compared passes the encoding flags; native witness spends need an empty scriptSig", c03_16, floor=7, engines="SYM",
+       breaks_if="0x02 0x0100 CLTV; OP_0 OP_0 CHECKSIG NOT under STRICTENC; scriptSig OP_1 OP_DROP on P2WPKH"),
     Ob("C03.12", "CLTV / CSV comparison rules (masked values, eras, preconditions)", guarded(c03_12), floor=9, engines="DF,GI", breaks_if="nSequence with unused upper bits set"),
     Ob("C03.15", "every opcode handler, VM / conditional-stack method and P2SH / segwit / solution-checker function equals its reviewed reference transcription (canonical forms)", c03_15, floor=120, engines="SYM",
        breaks_if="any script exercising the changed handler"),
